@@ -39,6 +39,27 @@ func genSet(t *rapid.T) setCase {
 	}
 	c := setCase{Fn: rapid.SampledFrom(setFns).Draw(t, "fn"), S1: sl("s1"), S2: sl("s2"), Nil1: rapid.Bool().Draw(t, "nil1"), Dst: rapid.IntRange(0, 4).Draw(t, "dst"),
 		Table: rapid.SliceOfN(rapid.IntRange(0, 2), 6, 6).Draw(t, "table"), V: rapid.IntRange(0, 6).Draw(t, "v")}
+	// related operands: one slice a prefix, a suffix, the reverse or a rotation of the other (equal contents in
+	// other memory), or the other with one element changed
+	switch rel := rapid.IntRange(0, 15).Draw(t, "related"); {
+	case rel == 0 && len(c.S1) > 0:
+		c.S2 = append([]int(nil), c.S1[:rapid.IntRange(0, len(c.S1)).Draw(t, "prefix")]...)
+	case rel == 1 && len(c.S1) > 0:
+		c.S2 = append([]int(nil), c.S1[rapid.IntRange(0, len(c.S1)).Draw(t, "suffix"):]...)
+	case rel == 2 && len(c.S2) > 0:
+		c.S1 = append([]int(nil), c.S2[:rapid.IntRange(0, len(c.S2)).Draw(t, "prefix1")]...)
+	case rel == 3:
+		c.S2 = nil
+		for i := len(c.S1) - 1; i >= 0; i-- {
+			c.S2 = append(c.S2, c.S1[i])
+		}
+	case rel == 4 && len(c.S1) > 1:
+		k := rapid.IntRange(1, len(c.S1)-1).Draw(t, "rot")
+		c.S2 = append(append([]int(nil), c.S1[k:]...), c.S1[:k]...)
+	case rel == 5 && len(c.S1) > 0:
+		c.S2 = append([]int(nil), c.S1...)
+		c.S2[rapid.IntRange(0, len(c.S2)-1).Draw(t, "changed")] = rapid.IntRange(0, 6).Draw(t, "to")
+	}
 	n := len(c.S1)
 	arg := rapid.OneOf(rapid.IntRange(-3, n+3), rapid.IntRange(-3, n+3), rapid.SampledFrom(append(g.FitInt([]int64{-1 << 62, 1 << 62}), -1, 0, n)), g.ExtremeInt())
 	c.A, c.B = arg.Draw(t, "a"), arg.Draw(t, "b")
